@@ -273,10 +273,10 @@ func mutations() []mutation {
 			delete(c, "endpoint")
 		}},
 		{"client-udp-only-with-udp-address", "accept", "a UDP-only client needs no TCP address", func(d doc, _ string) {
-			d["clients"] = append(d["clients"].([]any), doc{"name": "c-udponly", "protocol": "socks5", "udpAddress": cli(d, 2)["endpoint"], "enableUDP": true, "mtu": 1500})
+			d["clients"] = append(d["clients"].([]any), doc{"name": "c-udponly", "protocol": "socks5", "udpAddress": srv(d, 0)["tcpListeners"].([]any)[0].(doc)["address"], "enableUDP": true, "mtu": 1500})
 		}},
 		{"client-tcp-only-with-tcp-address", "accept", "a TCP-only client needs no UDP address", func(d doc, _ string) {
-			d["clients"] = append(d["clients"].([]any), doc{"name": "c-tcponly", "protocol": "socks5", "tcpAddress": cli(d, 2)["endpoint"], "enableTCP": true})
+			d["clients"] = append(d["clients"].([]any), doc{"name": "c-tcponly", "protocol": "socks5", "tcpAddress": srv(d, 0)["tcpListeners"].([]any)[0].(doc)["address"], "enableTCP": true})
 		}},
 	}
 	return ms
@@ -358,7 +358,7 @@ func conflicts(have []string, name string) bool {
 		return s
 	}
 	for _, h := range have {
-		if h == name || pfx(h) == pfx(name) || (strings.HasPrefix(h, "ss-") && strings.HasPrefix(name, "ss-")) || (strings.HasPrefix(h, "server-") && strings.HasPrefix(name, "server-")) || (strings.HasPrefix(h, "tunnel") && strings.HasPrefix(name, "tunnel")) {
+		if h == name || pfx(h) == pfx(name) || (strings.HasPrefix(h, "ss-") && strings.HasPrefix(name, "ss-")) || (strings.HasPrefix(h, "server-") && strings.HasPrefix(name, "server-")) || (strings.HasPrefix(h, "tunnel") && strings.HasPrefix(name, "tunnel")) || (strings.HasPrefix(h, "client-") && strings.Contains(h, "address") && strings.HasPrefix(name, "client-") && strings.Contains(name, "address")) {
 			return true
 		}
 	}
